@@ -179,16 +179,10 @@ func decodeEvent(s *rlp.Stream) (interface{}, error) {
 }
 
 func decodeCandidate(s *rlp.Stream) (interface{}, error) {
-	_, size, _ := s.Kind()
-	if size <= 0 {
-		var result interface{}
-		err := s.Decode(&result)
-		return &result, err
-	} else {
-		result := make(types.Profile)
-		err := s.Decode(&result)
-		return &result, err
-	}
+	// an empty profile is a *types.Profile too: redoCandidate expects nothing else
+	result := make(types.Profile)
+	err := s.Decode(&result)
+	return &result, err
 }
 
 func decodeUInt32(s *rlp.Stream) (interface{}, error) {
